@@ -22,7 +22,7 @@ from rpylib.product.payoff import PayoffOnTheFly
 from rpylib.product.product import Product
 from rpylib.product.underlying import Spot
 
-RULE = ("euler: real MarkovChainSDE / CouplingSDE (levels 1..2) objects on fixed-size grids (5..9 points, INVERSION or "
+RULE = ("euler: real MarkovChainSDE / CouplingSDE (levels 1..3; the fine / coarse driver drift is checked against fresh chains on the level-l / level-(l-1) grid, asymmetric CGMY/HEM/Merton drivers included) objects on fixed-size grids (5..9 points, INVERSION or "
         "BINARYSEARCHTREEADAPTED1D), drivers hem/merton/vg/cgmy (1-d) and 2-d Levy copulas (independent/Clayton), coefficient "
         "Constant, DiagX, sigma(t)*x of the forward/Libor models (tenors inside and outside the horizon) and a harness-side "
         "affine coefficient (C + D x)(1 + e t) with affine sde drift; the driver path consumed is captured by wrapping the "
